@@ -412,9 +412,16 @@ def acyclicConvs (e : TypeEnv) (convs : List FuncDesc) : Bool :=
   let g : AGraph Nat := ⟨vs, es⟩
   !(g.verts.any (fun v => (g.outs v).any (fun w => Traverse.reachB g w v)))
 
+/-- a converter as far as derivability is concerned: of two type-only outputs of one type only the later is
+usable (the output set is keyed by type) — a function declaring both is outside the well-formedness premise,
+and what it cannot deliver does not count as derivable -/
+def effectiveOutputs (f : FuncDesc) : FuncDesc :=
+  { f with output := { f.output with values := f.output.values.filter (fun v =>
+      f.output.named.any (fun p => p.2.index == v.index) || f.output.typed.any (fun p => p.2.index == v.index)) } }
+
 def mkFacts (sc : Scn) (b : Builder) (target : FuncDesc) : Facts :=
   let supplied := suppliedOf b
-  let convs := (b.convs.filterMap sc.fn)
+  let convs := (b.convs.filterMap sc.fn).map effectiveOutputs
   let deriv := derivable sc.env (supplied.map (·.1)) convs
   let params := target.input.labels
   let derivL := derivableWith (libCompatB sc.env) (supplied.map (·.1)) convs
